@@ -6,7 +6,8 @@
 (*  sig       "TERM" | "INT" | "QUIT";  graceful_ms, slack_ms              *)
 (*  ev: {e:"client", phase, started: the worker had started reading the    *)
 (*        request when the signal arrived, appfin: "within"|"overrun"|     *)
-(*        "never" (application time vs graceful timeout),                  *)
+(*        "never" (application time vs graceful timeout) | "late" (inside  *)
+(*        the graceful timeout but later than --timeout after the signal), *)
 (*        outcome: "complete"|"truncated"|"reset"|"nothing"|"refused"}     *)
 (*      {e:"exit", status, elapsed_ms}                                     *)
 (*      {e:"after", workers, listening, pidfile, sockfile}                 *)
@@ -19,7 +20,7 @@ vars == <<tid, l, verdict>>
 T == Traces[tid]
 V(e) ==
   IF e.e = "client" THEN
-     (IF T.sig = "TERM" /\ e.started /\ e.appfin = "within" /\ e.outcome # "complete" THEN "StartedRequestNotAnswered"
+     (IF T.sig = "TERM" /\ e.started /\ e.appfin \in {"within", "late"} /\ e.outcome # "complete" THEN "StartedRequestNotAnswered"
       ELSE "ok")
   ELSE IF e.e = "exit" THEN
      (IF e.status # 0 THEN "ExitStatusNotZero"
